@@ -78,6 +78,13 @@ def _mk_dialect(**attrs):
     for k, v in attrs.items():
         setattr(FD, k, v)
     return FD
+_READY = [True]
+def _flaky_list():
+    # a user default_factory that depends on state loaded later (F2: a user
+    # callback that fails until the 'heal' event)
+    if not _READY[0]:
+        raise RuntimeError("settings are not loaded yet")
+    return []
 def _tagger_name(cls):
     return "v_" + cls.__name__.lower()
 def _tagger_list(cls):
@@ -157,6 +164,8 @@ def render_value(v) -> str:
         return "None"
     if k == "b":
         return f"bytes.fromhex({v[1]!r})"
+    if k == "flaky":
+        return "[]"
     if k == "l":
         return "[" + ", ".join(render_value(x) for x in v[1]) + "]"
     if k == "t":
@@ -285,7 +294,9 @@ def render_class(c, defined=None, strip_lazy=False, twin_dialect=None, fam=None)
         if f.get("ser"):
             meta["serialize"] = _Raw(f"_ser_{f['ser']}")
             meta["deserialize"] = _Raw(f"_de_{f['ser']}")
-        if "d" in f:
+        if "d" in f and f["d"][0] == "flaky":
+            s += " = field(default_factory=_flaky_list" + (f", metadata={meta!r})" if meta else ")")
+        elif "d" in f:
             dv = f["d"]
             if dv[0] in ("l", "m", "o"):
                 dflt = f"default_factory=lambda: {render_value(dv)}"
